@@ -63,6 +63,21 @@ def gen_resubmit(ch, prof):
     return sc
 
 
+def gen_resubmit_faults(ch, prof):
+    """As gen_resubmit, plus a scheduler failure inside the resubmit-jobs command itself (its own round's
+    status query or first submission fails in every retry): the command fails after it has reset the
+    selected jobs.  C13: 'a failure of the command never leaves the submission with results erased and
+    no way forward' - the documented try-submit-jobs must still bring it to completion."""
+    sc = gen_resubmit(ch, prof)
+    g = Gen(ch)
+    for step in sc["resubmit"]:
+        if g.flip(0.7):
+            step["fault"] = g.weighted([("squeue_all", 4), ("sbatch_all", 1), ("squeue_k", 1)])
+    # the status query of the command's own round needs an id that is still recorded: resubmit right away
+    sc["resubmit_eager"] = g.flip(0.8)
+    return sc
+
+
 class ResubmitDriver(Driver):
     def __init__(self, w, prof):
         super().__init__(w, prof)
@@ -171,6 +186,12 @@ class ResubmitDriver(Driver):
             new_groups, path = self._edited_groups(step["edit"])
             if new_groups is not None:
                 extra = ["-s", path]
+        f = step.get("fault")
+        if f:
+            kind = "squeue_fail" if f.startswith("squeue") else "sbatch_fail"
+            w.faults.kinds.add(kind)
+            w.faults.sites.append({"kind": kind, "n": w.faults.counters.get(kind, 0),
+                                   "mode": "all" if f.endswith("all") else "k"})
         vp = w.run_user_cmd(["jade", "resubmit-jobs", w.output] + step["flags"] + extra, tag="resubmit")
         if new_groups is not None:
             self.group_edits[vp.id] = new_groups
@@ -488,11 +509,17 @@ profiles.profile("resubmit", mode="hpc", fault_free=True, no_liveness=True, kind
                  extra_monitors=_extra, driver_cls=ResubmitDriver, max_jobs=8, p_reports=0.5, p_fail=0.45,
                  max_steps=60000)
 profiles.PROFILE_PROPS["resubmit"] = ["C13"]
-profiles.CHECKS["C13"] = {"profiles": [("resubmit", 1.0)], "quick": {"runs": 3200}, "thorough": {"runs": 150000}}
+profiles.profile("resubmit_faults", mode="hpc", fault_free=False, no_liveness=True, kind="world", gen=gen_resubmit_faults,
+                 extra_monitors=_extra, driver_cls=ResubmitDriver, max_jobs=8, p_reports=0.5, p_fail=0.45,
+                 max_steps=60000)
+profiles.PROFILE_PROPS["resubmit_faults"] = ["C13"]
+profiles.CHECKS["C13"] = {"profiles": [("resubmit", 1.0), ("resubmit_faults", 0.25)], "quick": {"runs": 3200}, "thorough": {"runs": 150000}}
 profiles.RULES["C13"] = ("first epoch run to completion with a drawn mix of successful / failed / canceled / missing jobs (missing via a "
                          "lost batch), reports on or off, then 1-3 jade resubmit-jobs with drawn --failed/--missing/--successful flags, "
                          "each run to completion; exit codes may change per epoch; plus resubmit-jobs issued on the incomplete "
-                         "submission at a drawn moment (also from a second login host); non-trivial = a resubmission was accepted "
+                         "submission at a drawn moment (also from a second login host); plus (resubmit_faults) a status query or submission "
+                         "that fails in every retry inside the resubmit-jobs command itself, followed by the documented recovery; "
+                         "non-trivial = a resubmission was accepted "
                          "with a closure strictly larger than the selection, or a refusal was exercised")
 _old = profiles.nontrivial
 
